@@ -1807,7 +1807,16 @@ def _skip_filter_ctor(ex, st, args, kwargs, node):
     if not isinstance(names.ty, T.List):
         raise Unsupported(f"SkipExportGlyphsFilter(<{names.ty}>)", node)
     ns = ex.new_object(st, "SXNameSet")
-    ex.write_field(st, ns, "names", _models.seq_to_set(names), node)
+    # frozenset(names), stated position-wise in both directions (every entry is a member; every member sits at some position) instead of
+    # through seq.contains, from which the solvers derive `names[i] in set` only slowly (post.skipped-gone was borderline at 3 s)
+    L = lift(names)
+    S = fresh(Set(STR), "skipset")
+    i_ = z3.Int(fresh_name("si"))
+    x_ = fresh(STR, "sx")
+    pos = z3.Function(fresh_name("skippos"), z3.StringSort(), z3.IntSort())
+    st.assume(z3.ForAll([i_], z3.Implies(z3.And(i_ >= 0, i_ < z3.Length(L)), z3.Select(S, L[i_]))))
+    st.assume(z3.ForAll([x_], z3.Implies(z3.Select(S, x_), z3.And(pos(x_) >= 0, pos(x_) < z3.Length(L), L[pos(x_)] == x_)), patterns=[z3.Select(S, x_)]))
+    ex.write_field(st, ns, "names", Val(Set(STR), S), node)
     opts = ex.new_object(st, "SXOptions")
     ex.write_field(st, opts, "skipExportGlyphs", ns, node)
     f = ex.new_object(st, "SXFilter")
